@@ -238,7 +238,9 @@ func genArgFor(t *rapid.T, g *genState, c *Callable, name string) VD {
 		default:
 			return VD{K: "int", I: rapid.SampledFrom(hostileInts).Draw(t, "i")}
 		}
-	case has(name, "str", "sep", "cutset", "pattern", "format", "text", "timestamp", "duration-string", "json-string", "source-code",
+	case has(name, "format", "message-format-args") && rapid.Bool().Draw(t, "fmt"):
+		return VD{K: "str", S: []byte(rapid.SampledFrom(formatTemplates).Draw(t, "ft"))}
+	case has(name, "str", "sep", "cutset", "pattern", "format", "message-format-args", "text", "timestamp", "duration-string", "json-string", "source-code",
 		"source-location", "base64-data", "field-name", "name", "key", "package-name", "docstring", "matchKey", "condition", "symbol", "sym",
 		"var-name", "pkg-name", "message"):
 		switch rapid.IntRange(0, 8).Draw(t, "sk") {
@@ -363,6 +365,12 @@ func genKeywordCall(t *rapid.T) Apply {
 	}
 	return a
 }
+
+// formatTemplates: format-string / assert message templates with positional
+// indexes at and around the integer boundaries.
+var formatTemplates = []string{"{}", "{} {}", "{0}", "{1}", "{1} {0}", "{2}", "{9223372036854775807}", "{9223372036854775808}", "{9223372036854775809}",
+	"{18446744073709551615}", "{18446744073709551616}", "{99999999999999999999999999}", "{-1}", "{-0}", "{00000000000000000001}", "{1e3}", "{ 1 }", "{4294967296}", "{2147483648}",
+	"{0} {}", "{} {0}", "{{0}}", "{0", "0}", "{+1}", "{1.0}", "{0x1}"}
 
 func f64bits(f float64) uint64 { return math.Float64bits(f) }
 
